@@ -74,11 +74,25 @@ def vector_configs(tier, seed=1):
     return uniq
 
 
+def fenv_configs(tier, seed=1):
+    """SimFenv runs are cheap (the cost of a configuration is its compilation), so the float engine samples the
+    (macro set x compiler x standard x optimisation) space more densely than SimMem can afford."""
+    out = vector_configs(tier, seed)
+    out += [mk('clang++', 'c++11', 'SSE2'), mk('g++', 'c++20', 'SSE4_1', opt='-O0'), mk('clang++', 'c++20', 'AVX2'), mk('g++', 'c++17', 'F_VL_DQ'),
+            mk('clang++', 'c++11', 'full', opt='-O0'), mk('clang++', 'c++17', 'none', opt='-O0')]
+    seen, uniq = set(), []
+    for c in out:
+        if c['id'] not in seen:
+            seen.add(c['id']); uniq.append(c)
+    return uniq
+
+
 def heap_configs(tier, seed=1):
     if tier == 'quick':
         return [mk('g++', 'c++11', 'none'), mk('g++', 'c++17', 'none'), mk('g++', 'c++11', 'SSE2'),
+                mk('clang++', 'c++11', 'none'), mk('g++', 'c++14', 'none', opt='-O0'), mk('clang++', 'c++17', 'SSE2', opt='-O0'),
                 mk('clang++', 'c++20', 'none', opt='-O1', san=True), mk('clang++', 'c++14', 'none', opt='-O1', san=True)]
-    out = []
+    out = heap_configs('quick', seed)
     for cxx in ('g++', 'clang++'):
         for std in ('c++11', 'c++14', 'c++17', 'c++20'):
             for ms in ('none', 'SSE2', 'AVX2'):
@@ -87,7 +101,11 @@ def heap_configs(tier, seed=1):
                         continue
                     k = _knob('%s/%s/%s/%d' % (cxx, std, ms, seed), 4)
                     out.append(mk(cxx, std, ms, opt=('-O0' if k == 0 else '-O1') if san else ('-O0' if k == 0 else '-O2'), san=san))
-    return out
+    seen, uniq = set(), []
+    for c in out:
+        if c['id'] not in seen:
+            seen.add(c['id']); uniq.append(c)
+    return uniq
 
 
 def prefetch_configs(tier, seed=1):
